@@ -3,5 +3,6 @@ INVARIANT C05_Terminates
 INVARIANT C05_Feasible
 INVARIANT C05_NoFlagInDag
 INVARIANT C05_CostConsistent
+INVARIANT C05_CostConsistentFine
 INVARIANT C05_NoBetterFeasiblePoint
 CHECK_DEADLOCK FALSE
